@@ -281,6 +281,11 @@ def judge(ctx, route, spec, p, C0, stage, o, text, argv, dests, passed=()):
                 detail = "init_args-of-class-other-than-default"
             ctx.violation("roundtrip", f"{variant[0]}-only/{what}/{detail}", dict(route=route, at=steps_str(d[0]) if d else None, why=d[1] if d else None, spec=P.spec_summary(spec), config=short(C0, 600), text=short(text, 800), outcome=o.brief()))
             return
+    if variant and not (stage == "reparse" and o.accepted and same_steps(strip_prov(C0, dests), strip_prov(o.value, dests)) is None):
+        # the plain route already fails for this configuration (reported there): a difference in the variant cannot be
+        # attributed to the variant
+        ctx.count("variant_route_not_judged_because_plain_route_fails")
+        return
     mode = spec.get("mode", "yaml")
     fam = route_family(route) if mode == "yaml" else "json"
     types = P.arg_types(spec)
